@@ -12,7 +12,7 @@ CHECKS = {
     },
 }
 CHECKS["C11"] = {
-    "technique": "symbolic execution of calculate_checksum_tcp/udp and ones_complement_checksum on packets parsed by the real Packet class; verdict compared with the RFC 1071 receiver rule by z3",
+    "technique": "symbolic execution of calculate_checksum_tcp/udp and ones_complement_checksum on packets parsed by the real Packet class; verdict compared with the RFC 1071 receiver rule by z3; main.run -c (stub reader/writer) with a solver-placed damaged copy of a packet, compared with the run without -c (self-composition)",
     "text": "For every IPv4/IPv6 address pair and every byte of a TCP or UDP segment of the stated lengths (odd and even), z3 shows "
             "that the checksum routines return without exception and accept exactly the packets whose RFC 1071 receiver sum is "
             "0xffff; every carry/fold boundary (sums of exactly 0x10000, fields 0x0000/0xffff) is inside the symbolic domain.",
@@ -20,7 +20,7 @@ CHECKS["C11"] = {
             "UDP checksum field 0 is outside the claim. Segment lengths are bounded as listed in the evidence.",
 }
 CHECKS["C17"] = {
-    "technique": "symbolic execution of parse_frames and every frame class: one loop iteration on arbitrary bytes (inductive step), whole loop on all short strings, and a reference encoder with symbolic 62-bit fields and symbolic var-int widths",
+    "technique": "symbolic execution of parse_frames and every frame class: one loop iteration on arbitrary bytes (inductive step), whole loop on all short strings, and a reference encoder with symbolic 62-bit fields and symbolic var-int widths; an exhausted per-path decision budget inside the parser is replayed as a non-termination candidate",
     "text": "z3 decides, for one iteration of the real parse_frames loop on arbitrary bytes of the stated length, that the iteration "
             "raises or consumes >= 1 byte and yields data that are slices of the payload (so the loop runs at most len(payload) times); "
             "the whole loop is explored on every byte string up to the stated length; and for every RFC 9000/9221 frame type, every "
@@ -38,7 +38,7 @@ CHECKS["C14"] = {
     "note": TRUST + "Registry copy: spec/iana_tls_cipher_suites.json (scapy 2.7.0 table + RFC 6655/8442/8492), cross-checked against openssl -stdname on every run.",
 }
 CHECKS["C05"] = {
-    "technique": "symbolic execution of Session reassembly (handle_packet, get_tls_records, extract_*_buf, TlsRecord) with solver-chosen cut points, duplicate, displacement and a symbolic 32-bit initial sequence number",
+    "technique": "symbolic execution of Session reassembly (handle_packet, get_tls_records, extract_*_buf, TlsRecord) with solver-chosen cut points, duplicate or coalesced retransmission, displacement and a symbolic 32-bit initial sequence number; whole connections through main.run with 1/2/5-byte segments",
     "text": "For record streams within the bound with every content byte symbolic, z3 explores every set of cut points, every "
             "placement of one exact duplicate, every displacement of one segment and every initial sequence number (including "
             "streams crossing 2^32) and shows that the records handed to the record layer are exactly the records sent, per "
@@ -46,7 +46,7 @@ CHECKS["C05"] = {
     "note": TRUST + "Packets are duck-typed stubs; the record layer is replaced by a recorder. Bounds in the evidence file.",
 }
 CHECKS["C01"] = {
-    "technique": "symbolic execution of the whole TLS-over-TCP path (Packet, main.handle_packet, Session, key_derivator, Decryptor, OutputBuilder) against RFC reference endpoints under an ideal-cryptography model, plus one inductive record step from an arbitrary cipher state",
+    "technique": "symbolic execution of the whole TLS-over-TCP path (main.run with stub reader/writer, Packet, main.handle_packet, Session, key_derivator, Decryptor, OutputBuilder) against RFC reference endpoints under an ideal-cryptography model, plus one inductive record step from an arbitrary cipher state",
     "text": "For every behaviour class of TLExport's suite table in every version it is valid for, several handshake shapes and a "
             "history of application records whose contents, lengths, directions, randoms, secrets, IVs/nonces and ciphertexts are "
             "symbolic, z3 shows that the exported TCP payload per direction equals the application data sent; a second harness "
@@ -58,7 +58,7 @@ CHECKS["C01"] = {
             "(exercised only by the validated end-to-end replays). One record per TCP segment here; segmentation is C05.",
 }
 CHECKS["C15"] = {
-    "technique": "symbolic execution of the key-installation path (handshake parsing, generate_keys, key_derivator, Decryptor.parse_keys) with hashes/HMAC/HKDF as uninterpreted functions; installed keys compared with a reference key schedule by z3 (QF_UFBV)",
+    "technique": "symbolic execution of the key-installation path (handshake parsing, generate_keys, key_derivator, Decryptor.parse_keys) with hashes/HMAC/HKDF as uninterpreted functions; installed keys compared with a reference key schedule by z3 (QF_UFBV); module-level caches get solver-decided lookups and are exercised by connection pairs in one process",
     "text": "For every (cipher, MAC) class of the table in every version it is valid for and both key-log labels, with all secrets and "
             "randoms symbolic, z3 shows that each key, IV and MAC secret installed in the Decryptor equals the RFC key schedule's "
             "value under every interpretation of the hash primitives, hence under the real ones. Sampled instances are recomputed "
@@ -73,7 +73,7 @@ CHECKS["C13"] = {
     "note": TRUST + "Ideal cryptography / recorder scapy / dpkt model as in C01/C02. QUIC: the stream data of the plain export must be found, in order and direction, as contiguous runs inside the -a datagrams.",
 }
 CHECKS["C08"] = {
-    "technique": "self-composition under symbolic execution: the pipeline runs on packets[:j] and on all packets with a solver-chosen cut index j; z3 decides the byte-prefix relation",
+    "technique": "self-composition under symbolic execution: the pipeline runs on packets[:j] and on all packets with a solver-chosen cut index j; z3 decides the byte-prefix relation; the same for the session reassembly under duplicated / coalesced / displaced segments",
     "text": "For the C01 (TLS) and C02 (QUIC) scenarios, with one record per segment and with records cut into small segments, and for every cut "
             "index j, the export of the truncated capture is, per direction, a byte-prefix of the export of the full capture.",
     "note": TRUST + "Models as in C01/C02 (TLS and QUIC scenarios).",
@@ -88,7 +88,7 @@ CHECKS["C10"] = {
     "note": TRUST + "The port map is a solver-decided mapping object instead of a dict (same override order). Reader/writer/file system are stubs in the wiring harness.",
 }
 CHECKS["C02"] = {
-    "technique": "symbolic execution of the whole QUIC path (main.handle_quic_packet, QuicSession, dissector, header-protection removal, packet-number decoding, QuicDecryptor, frame and TLS-message parsing, key installation and update, QUICOutputbuilder) against RFC 9000/9001 reference endpoints under an ideal-cryptography model",
+    "technique": "symbolic execution of the whole QUIC path (main.run with stub reader/writer, main.handle_quic_packet, QuicSession, dissector, header-protection removal, packet-number decoding, QuicDecryptor, frame and TLS-message parsing, key installation and update, QUICOutputbuilder) against RFC 9000/9001 reference endpoints under an ideal-cryptography model",
     "text": "For each of the four QUIC suites and a set of connection shapes (coalescing, frame mixes, several streams, STREAM without "
             "length, packet-number lengths and gaps, ClientHello split over CRYPTO frames/packets out of order, one and two key "
             "updates, NEW_CONNECTION_ID switch, Retry, 0-RTT, other suite offered first, key-log order, connection-id lengths "
@@ -108,7 +108,7 @@ CHECKS["C07"] = {
     "note": TRUST + "Models as in C01/C02; capture times are opaque integers inside the pipeline; the float lemma uses |relative error| <= 2^-53 per operation and claims nothing at or above 2^51 microseconds.",
 }
 CHECKS["C06"] = {
-    "technique": "symbolic execution of OutputBuilder on records of symbolic length (abstract byte strings; floor(n/k) justified by a cvc5-proved floating-point lemma), of main.run's writer loop with stub reader/writer, plus strict independent reading of sampled real outputs",
+    "technique": "symbolic execution of OutputBuilder on records of symbolic length (abstract byte strings; floor(n/k) justified by a cvc5-proved floating-point lemma), of main.run on connections whose multi-segment records interleave in every order (an in-file-order receiver checks sequence numbers and acknowledgements), of main.run's writer loop with stub reader/writer, plus strict independent reading of sampled real outputs",
     "text": "For records of every length below 2^15+2^11 carried by 1..K input packets in any directions, z3 shows that the export "
             "opens with SYN / SYN-ACK / ACK stamped with the first record's time, that each record is re-split into at most k "
             "contiguous parts that cover it exactly, that sequence numbers are gap-free and non-overlapping per direction and every "
@@ -118,7 +118,7 @@ CHECKS["C06"] = {
     "note": TRUST + "Byte-level serialisation and checksums are produced by scapy/dpkt and are checked only on the concrete samples (not decided symbolically). Lemma L1 is discharged by cvc5 on every run for each divisor used.",
 }
 CHECKS["C09"] = {
-    "technique": "z3 regular-expression inclusion for the key-log line filter lifted from the source; symbolic execution of the TLS/QUIC key consumers under solver-chosen permutations/decorations of the key log; main.run with the secrets delivered by file / DSBs / both, with os.path.exists symbolic",
+    "technique": "z3 regular-expression inclusion for the key-log line filter lifted from the source; symbolic execution of the TLS/QUIC key consumers under solver-chosen permutations/decorations of the key log; main.run with the secrets delivered by file / DSBs / both, with os.path.exists symbolic; DecryptionSecretBlock.unpack on blocks with symbolic content",
     "text": "z3 decides that every NSS key log line (all labels, either hex case, any secret length) is accepted by the regular "
             "expression in get_key_from_line and that its three fields are what Key extracts; for TLS <=1.2, TLS 1.3 and QUIC "
             "connections every permutation of the key-log entries, a duplicate and unrelated entries give the same export; and "
@@ -128,7 +128,7 @@ CHECKS["C09"] = {
     "note": TRUST + "Models as in C01/C02. In the delivery harness secrets are concrete (they travel as text) and application data symbolic; the capture reader and file system are stubs (dpkt's DSB block parsing is C12's subject).",
 }
 CHECKS["C18"] = {
-    "technique": "symbolic execution with every environment choice as a solver variable: iteration order of the connection-id sets, existence of files in the working directory, and an earlier in-process run (self-composition of main.run)",
+    "technique": "symbolic execution with every environment choice as a solver variable: iteration order of the connection-id sets, completion order of concurrent.futures tasks, existence of files in the working directory, and an earlier in-process run compared with a run in freshly imported modules (self-composition of main.run)",
     "text": "z3 shows that the QUIC export is the same (and correct) whatever order the connection-id sets are iterated in at each "
             "iteration (the only hash-order dependent containers), that main.run's writer calls do not depend on which files exist "
             "in the working directory, and that a run gives the same writer calls after another run in the same process as alone "
